@@ -119,6 +119,13 @@ def _worker_init():
 
     warnings.filterwarnings("ignore")
     logging.disable(logging.CRITICAL)
+    try:  # `kill -USR1 <worker pid>` dumps its Python stack (diagnosing stragglers)
+        import faulthandler
+        import signal
+
+        faulthandler.register(signal.SIGUSR1, file=open(os.path.join("/tmp", f"vf_stack_{os.getpid()}.log"), "w"), all_threads=False)
+    except Exception:
+        pass
     try:
         import onnxruntime as ort
 
@@ -276,6 +283,9 @@ def run_property(prop: str, tier: str, seed: int, replay_path: str | None = None
 
     # 2. the search
     shards = mod.plan(tier, seed)
+    only = os.environ.get("VERIF_ONLY_KIND")  # debugging aid: restrict a run to one shard kind
+    if only:
+        shards = [s for s in shards if s.get("kind") in only.split(",")]
     merged = {
         "evaluations": 0,
         "nontrivial": set(),
